@@ -91,7 +91,7 @@ prop('C04',
      'DESIGN.md 3.1, 4 C04')
 
 prop('C05',
-     [MO.ac1, MO.ac2, PD.pd4, PD.pd3, R3.tk1, R3.ml8, R3.sc7, R3.ac3],
+     [MO.ac1, MO.ac2, PD.pd4, PD.pd3, R3.tk1, R3.ml8, R3.sc7, R3.ac3, R4.ab5, RX.rp1],
      'enabling invariants of the line-removal pass: every vanishing construct leaves an action '
      'token (or a paragraph token / visible text) on every path and substituted arguments are '
      'bracketed by action tokens (AC1); the skip-space set excludes paragraph tokens (AC2); a '
